@@ -494,7 +494,7 @@ package main
 //@ requires f != nil && wfc2(c) && mapOK(c.gen, c.field.FieldDescriptorProto) && c.desc.DescriptorProto != nil
 //@ modifies *f, c.plugin.Messages, c.plugin.Imports.qualifiers[_]
 //@ ensures [C18] imp(result == nil, f.MapValueField != nil)
-//@ ensures f.Name == old(f.Name) && f.NameSnake == old(f.NameSnake) && f.Path == old(f.Path) && f.IsRequired == old(f.IsRequired) && f.IsComputed == old(f.IsComputed) && f.IsSensitive == old(f.IsSensitive) && f.IsMap == old(f.IsMap) && f.IsRepeated == old(f.IsRepeated) && same(f.Validators, old(f.Validators)) && same(f.PlanModifiers, old(f.PlanModifiers)) && f.Comment == old(f.Comment) && f.IsMessage == old(f.IsMessage) && f.IsCustomType == old(f.IsCustomType) && f.OneOfName == old(f.OneOfName)
+//@ ensures f.Name == old(f.Name) && f.NameSnake == old(f.NameSnake) && f.Path == old(f.Path) && f.IsRequired == old(f.IsRequired) && f.IsComputed == old(f.IsComputed) && f.IsSensitive == old(f.IsSensitive) && f.IsMap == old(f.IsMap) && f.IsRepeated == old(f.IsRepeated) && same(f.Validators, old(f.Validators)) && same(f.PlanModifiers, old(f.PlanModifiers)) && f.Comment == old(f.Comment) && f.IsMessage == old(f.IsMessage) && f.IsCustomType == old(f.IsCustomType) && f.OneOfName == old(f.OneOfName) && f.OneOfType == old(f.OneOfType)
 //@ ensures wfp(c.plugin)
 
 // One Field per field: an excluded field yields nothing before anything else is looked at; a field
@@ -528,6 +528,17 @@ package main
 //@ ensures [C02,C17] imp(one, result0[0].IsCustomType == c.IsCustomType() && result0[0].IsMap == c.gen.IsMap(p) && result0[0].IsMessage == isMsg)
 //@ ensures [C02,C17] imp(one && !result0[0].IsMap, result0[0].Kind == ite(result0[0].IsCustomType, CustomKind, ite(result0[0].IsRepeated && isMsg, ObjectListKind, ite(result0[0].IsRepeated, PrimitiveListKind, ite(isMsg, ObjectKind, PrimitiveKind)))))
 //@ ensures [C11,C12] imp(one && isMsg && !result0[0].IsMap && result0[0].Message != nil, result0[0].Message.Path == c.path)
+//@ # everything else the emitters read of a field (C01/C02/C10/C13): copied from the context, the Go type strings derived from gogo's type string
+//@ define r0 = result0[0]
+//@ define vs = c.config.Validators
+//@ define pm = c.config.PlanModifiers
+//@ ensures [C02,C10] imp(one, r0.IsRepeated == (!c.gen.IsMap(p) && c.field.IsRepeated()) && imp(!r0.IsMap, r0.IsNullable == c.GetNullable()))
+//@ ensures [C10,C11] imp(one, same(r0.Validators, ite(has(vs, c.path), vs[c.path], vs[c.typeName])) || (!has(vs, c.path) && !has(vs, c.typeName) && len(r0.Validators) == 0))
+//@ ensures [C10,C11] imp(one && has(pm, c.path), same(r0.PlanModifiers, pm[c.path]))
+//@ ensures [C10,C11] imp(one && !has(pm, c.path) && has(pm, c.typeName), same(r0.PlanModifiers, pm[c.typeName]))
+//@ ensures [C01,C13] imp(one, r0.GoElemTypeIndirect == replaceall(r0.GoElemType, "*", "") && imp(!r0.IsMap, r0.GoType == c.goType))
+//@ ensures [C01,C13] imp(one && !r0.IsMap && !r0.IsRepeated, r0.GoElemType == c.goType)
+//@ ensures [C07] imp(one && c.field.OneofIndex == nil, r0.OneOfName == "" && r0.OneOfType == "")
 //@ ensures imp(result1 == nil && 0 <= j0 && j0 < len(result0), result0[j0] != nil && fresh(result0[j0]))
 //@ ensures wfp(c.plugin)
 
